@@ -695,6 +695,22 @@ example : (match planDevice stdDiff "d" "d" [plainDev, { plainDev with name := "
     | .ok l => l.map (·.1) == ["v"] | .error _ => false) = true ∧
     ([plainDev, { plainDev with name := "w" }].map (·.name)).Nodup := by decide
 
+/-- hypothesis `hok` of `pan_group_members_converge` together with its other hypotheses, for a
+differ with `GoodDiffer`: an empty device group gets two members (one merging `set`), and an
+equal member list is answered `true` without a request -/
+example : (hasEqLists stdDiff 1 (initSt sgDev sgTgt []) [] ["a", "b"] (.group "g")).1 = true ∧
+    (hasEqLists stdDiff 1 (initSt sgDev sgTgt []) [] ["a", "b"] (.group "g")).2.out = [.setGrp "g" ["a", "b"]] ∧
+    (hasEqLists stdDiff 1 (initSt sgDev sgTgt []) ["a", "b"] ["a", "b"] (.group "g")).1 = true ∧
+    (∀ y ∈ ["a", "b"], (initSt sgDev sgTgt []).bGrpIdx y = none) := by decide
+
+/-- **The theorems' `equiv` (header text equal) implies the oracle's `equivSem`** (header
+elements with PAN-OS's default content count as absent: no `<rule-type>` = `universal`, …), for
+any normalisation `f` of header texts. -/
+theorem panos_equiv_implies_equivSem (dev tgt : Vsys) (h : equiv dev tgt = true) :
+    equivSem dev tgt = true := equivBy_of_equiv hdrSem dev tgt h
+
+example : equiv plainTgt plainTgt = true := by decide
+
 /-- the per-pair hypothesis of `panos_device_converges_partial` on that device -/
 example : ∀ v1 ∈ [plainDev, { plainDev with name := "w" }], ∀ v2,
     vsysMap [plainTgt] v1.name = some v2 → PlainPair [] v1 v2 := by
@@ -722,6 +738,6 @@ def obligations : List Lean.Name := [
   ``panos_vsys_converges_partial, ``panos_executable_partial, ``panos_unchanged_only_if_equivalent_partial,
   ``panos_idempotent_partial, ``panos_settled_plan_empty_partial, ``panos_resume_partial,
   ``panos_outside_vsys_untouched, ``panos_device_converges_partial, ``stdDiff_good, ``stdDiff_identity,
-  ``sortStrings_canonical]
+  ``sortStrings_canonical, ``panos_equiv_implies_equivSem]
 
 end NA.PanOs
